@@ -57,9 +57,11 @@ func realMain() {
 		params := fs.String("p", "", "k=v,k=v")
 		all := fs.Bool("all", false, "do not stop at first violation")
 		budget := fs.Duration("budget", 10*time.Minute, "time budget")
+		repoDir := fs.String("repo", "/repo", "repository (development: a scratch copy)")
+		verDir := fs.String("verif", "/verif", "verification directory")
 		fs.Parse(os.Args[2:])
 		t0 := time.Now()
-		ld, err := Load("/repo", "/verif")
+		ld, err := Load(*repoDir, *verDir)
 		if err != nil {
 			fmt.Println(err)
 			os.Exit(2)
